@@ -78,7 +78,7 @@ def run(chk, prog):
     # ---- R2 -------------------------------------------------------------------------------------
     seen = set()
     ncase = 0
-    for asg, g in mm.case_split():
+    for asg, g in mm.case_split(loop_continues=True):
         if not asg.get("wkm", False):
             continue
         fr = F.Freshness(mm, g)
